@@ -192,8 +192,9 @@ def stats_of(tab, io_lines, out, got, st):
         s["kind:" + d["kind"]] += 1
         if d["kind"] == "reg":
             s["del:" + d["del"]] += 1
-            if d["acc"] == 3:
-                s["acc3"] += 1
+            s["flags:acc%d%s" % (d["acc"], "+APPEND" if "APPEND" in d["fl"] else "")] += 1
+            for f in d["fl"]:
+                s["flag:" + f] += 1
     for fd, j in got["fired"].items():
         s["fired:c%d" % j] += 1
     for l in io_lines:
@@ -287,6 +288,12 @@ def rand_input(rnd):
     return {"tab": tab, "io": io}
 
 
+def row_typed(g):
+    return (type(g["fd"]) is int and type(g["position"]) is int and type(g["flags"]) is int
+            and 0 <= g["flags"] < 2 ** 30 and 0 <= g["fd"] < 2 ** 31 and isinstance(g["mode"], str)
+            and isinstance(g["path"], str))
+
+
 def to_line(inp, got):
     """Recorded <effective input, answers> in the shape ProcFdsTrace expects, or
     a dict with 'problem' when an answer cannot be expressed (raised / bad type)."""
@@ -308,8 +315,7 @@ def to_line(inp, got):
                 rev[path_of(d["file"], d["del"], sfx)] = (d["file"], d["del"], sfx)
     rows = []
     for g in of:
-        if not (type(g["fd"]) is int and type(g["position"]) is int and type(g["flags"]) is int
-                and 0 <= g["flags"] < 2 ** 30 and isinstance(g["mode"], str) and isinstance(g["path"], str)):
+        if not row_typed(g):
             line["problem"] = "type"
             return line
         file, dl, sfx = rev.get(g["path"], (0, "?", False))
@@ -342,7 +348,8 @@ def rand_chunk(job):
 def py_judge_line(line, out):
     """Classify a recorded line with the Python judge, given TLC's F(inp)."""
     got = dict(line["raw"])
-    got["fired"] = {}       # the line's input is already the effective one
+    # the line's input is the effective one: whatever is still marked closing did close
+    got["fired"] = {str(d["fd"]): int(d["close"][1]) for d in line["inp"]["tab"] if d["close"] != "no"}
     return judge(line["inp"]["tab"], out, got, int, int)
 
 
@@ -603,6 +610,9 @@ def live_records(ctx, force_lf):
         of = raw["open_files"]
         if isinstance(of, dict) or isinstance(raw["num_fds"], dict) or "raised" in raw["io"]:
             line["problem"] = "raised"
+        elif not (all(row_typed(g) for g in of) and type(raw["num_fds"]) is int
+                  and all(type(raw["io"].get(f)) is int for f in IO_FIELDS)):
+            line["problem"] = "type"
         else:
             line["got"] = {"num_fds": raw["num_fds"],
                            "rows": [{"fd": g["fd"], "file": g["file"], "del": g["del"], "sfx": g["sfx"],
@@ -628,17 +638,25 @@ def calibrate(ctx):
 
 # ---- vacuity guards --------------------------------------------------------------
 
+FLAGCLASSES = ["flags:acc0", "flags:acc0+APPEND", "flags:acc1", "flags:acc1+APPEND", "flags:acc2",
+               "flags:acc2+APPEND", "flags:acc3"]
 REQ_ENUM = (["kind:" + k for k in KINDS] + ["del:" + d for d in DELS] + ["fired:c1", "fired:c2", "fired:c3"]
-            + ["junk:" + j for j in JUNK] + ["io:6-lines", "acc3", "tables:n=0", "result:empty",
-                                             "mode:r", "mode:w", "mode:a", "mode:r+", "mode:a+", "path:suffixed"])
+            + ["junk:" + j for j in JUNK] + FLAGCLASSES + ["flag:" + f for f in FLAG9[:5]]
+            + ["io:6-lines", "tables:n=0", "result:ok", "result:empty"])
 REQ_RAND = (["kind:" + k for k in KINDS] + ["del:" + d for d in DELS] + ["fired:c1", "fired:c2", "fired:c3"]
-            + ["junk:" + j for j in JUNK] + ["mode:r", "mode:w", "mode:a", "mode:r+", "mode:a+", "tables:n=14"])
+            + ["junk:" + j for j in JUNK] + FLAGCLASSES + ["flag:" + f for f in FLAG9] + ["tables:n=14", "result:ok"])
 
 
-def need(what, req, stats):
+def need(ctx, what, req, stats):
     missing = [k for k in req if not stats.get(k)]
-    if missing:
-        raise core.Machinery("vacuity: %s never exercised %s" % (what, missing))
+    if not missing:
+        return
+    if ctx.violations:
+        # classes such as 'the descriptor closed before the 3rd access' depend on what the code
+        # does; when the code already disagrees the disagreement is the verdict
+        ctx.notes.append("%s never exercised %s" % (what, missing))
+        return
+    raise core.Machinery("vacuity: %s never exercised %s" % (what, missing))
 
 
 def observe(ctx, c):
@@ -712,9 +730,9 @@ def check(ctx):
         if not e["inp"]["tab"] and (thorough or rnd.random() < 0.5) or thorough and rnd.random() < 0.1:
             cases.append((e, rnd.choice(SCALES[1:])))
     stats = run_cases(ctx, "enumerated-tables", cases)
-    need("the enumerated input space", REQ_ENUM, stats)
+    need(ctx, "the enumerated input space", REQ_ENUM, stats)
     tstats = trace_validate(ctx, 30000 if thorough else 4000, live)
-    need("the random driver", REQ_RAND, tstats)
+    need(ctx, "the random driver", REQ_RAND, tstats)
 
 
 def main(prop, argv):
